@@ -23,6 +23,7 @@ float ceil with non-dyadic steps.
 This file restates the theorems the property rests on (full statements; proofs are in PGProofs/).
 Generated once by harness/mkprops.py from harness/props_table.py + PGProperties/extra/C05.lean.in; committed as source.
 -/
+import PGProofs.DemographyMixed
 import PGProofs.DemographyThm
 
 set_option linter.all false
@@ -30,6 +31,21 @@ set_option pp.fieldNotation.generalized false
 
 namespace PG.C05
 open PG
+
+/-- schedules mixing all event classes: keys only discrete events touch still follow the latest change -/
+theorem mixed_value_in_force : ∀ (o : DemoOpts), o.fixedBroadcast = true → ∀ (events : List Event), (∀ ev ∈ events, Event.WF ev) → ∀ (k : Key), (∀ ev ∈ events, ¬Event.IsDiscrete ev → ¬Event.Touches ev k) → ∀ (count : ℕ), ∀ e ∈ epochsUpTo o events count, ∀ (t : ℚ), e.start ≤ t → ltInf t e.stop = true → Epoch.value e k = specValue (allChanges (sortEvents events)) (popNames (sortEvents events)) k t := @PG.mixed_value_in_force_discrete
+
+/-- schedules mixing all event classes: endpoint mean inside the window -/
+theorem mixed_discretised_mean : ∀ (o : DemoOpts), o.fixedWindowEnd = true → ∀ (events : List Event) (parts : List Part), Event.discretised parts ∈ events → ∀ p ∈ parts, (∀ ev ∈ events, Event.QuietFor p ev) → ∀ (count : ℕ), ∀ e ∈ epochsUpTo o events count, ∀ (en : ℚ), e.stop = some en → p.2.1 ≤ e.start → leInf en p.2.2.1 = true → Epoch.value e p.2.2.2.1 = some ((polyEval p.1 e.start + polyEval p.1 en) / 2) := @PG.mixed_discretised_mean
+
+/-- finite windows: the schedule ends with an infinite epoch after an explicit number of epochs and tiles [0, inf) -/
+theorem mixed_terminates : ∀ (o : DemoOpts), o.fixedBroadcast = true → ∀ (events : List Event), (∀ ev ∈ events, Event.WF ev) → (∀ ev ∈ events, Event.FiniteWindows ev) → ∀ (count : ℕ), List.length (stopTimes events) < count → (∃ e ∈ epochsUpTo o events count, e.stop = none) ∧ Tiled (epochsUpTo o events count) := @PG.mixed_terminates
+
+/-- inside a window no epoch is longer than one step (+1e-10) -/
+theorem mixed_epoch_length : ∀ (o : DemoOpts), o.fixedBroadcast = true → ∀ (events : List Event) (parts : List Part), Event.discretised parts ∈ events → ∀ p ∈ parts, 0 < p.2.2.2.2 → ∀ (count : ℕ), ∀ e ∈ epochsUpTo o events count, p.2.1 ≤ e.start → leInf e.start p.2.2.1 = true → ∃ en, e.stop = some en ∧ en - e.start < p.2.2.2.2 + 1 / 10000000000 := @PG.mixed_epoch_length
+
+/-- grid points are epoch starts -/
+theorem mixed_grid_boundaries : ∀ (o : DemoOpts), o.fixedBroadcast = true → ∀ (events : List Event), (∀ ev ∈ events, Event.WF ev) → (∀ ev ∈ events, Event.FiniteWindows ev) → ∀ (count : ℕ), List.length (stopTimes events) < count → ∀ (parts : List Part), Event.discretised parts ∈ events → ∀ p ∈ parts, ∀ (j : ℕ), leInf (p.2.1 + ↑j * p.2.2.2.2) p.2.2.1 = true → (∀ e ∈ epochsUpTo o events count, e.start < p.2.1 + ↑j * p.2.2.2.2 → e.start + 1 / 10000000000 ≤ p.2.1 + ↑j * p.2.2.2.2) → ∃ e ∈ epochsUpTo o events count, e.start = p.2.1 + ↑j * p.2.2.2.2 := @PG.mixed_grid_boundaries_of_count
 
 /-- epochs tile [0, inf): first starts at 0, consecutive, only the last is infinite, non-empty -/
 theorem tiling : ∀ (o : DemoOpts) (events : List Event) (count : ℕ), let eps := epochsUpTo o events count; (∀ (e : Epoch), List.head? eps = some e → e.start = 0) ∧ (∀ (i : ℕ) (h : i + 1 < List.length eps), eps[i].stop = some eps[i + 1].start) ∧ (∀ (i : ℕ) (h : i < List.length eps), eps[i].stop = none → i + 1 = List.length eps) ∧ (List.length eps < count → ∃ e, List.getLast? eps = some e ∧ e.stop = none) ∧ List.length eps ≤ count ∧ ((∀ ev ∈ events, Event.StepsPos ev) → ∀ e ∈ eps, ∀ (en : ℚ), e.stop = some en → e.start < en) := @PG.epochs_tiling
@@ -84,6 +100,11 @@ theorem grid_point_skipped : List.map (fun e ↦ (e.start, e.stop)) (epochsUpTo 
 
 end PG.C05
 
+#print axioms PG.C05.mixed_value_in_force
+#print axioms PG.C05.mixed_discretised_mean
+#print axioms PG.C05.mixed_terminates
+#print axioms PG.C05.mixed_epoch_length
+#print axioms PG.C05.mixed_grid_boundaries
 #print axioms PG.C05.tiling
 #print axioms PG.C05.tiling_WF
 #print axioms PG.C05.change_times_are_boundaries
